@@ -255,6 +255,10 @@ func run(r *core.Run) {
 	for i := 0; i < n; i++ {
 		sessionCase(r, i)
 	}
+	m := r.N(40, 1500)
+	for i := 0; i < m; i++ {
+		mySessionCase(r, i)
+	}
 }
 
 func sessionCase(r *core.Run, idx int) {
